@@ -311,6 +311,17 @@ func (i *IRCServer) deleteSessionLocked(s *Session, msgid uint64) {
 		i.maybeDeleteChannelLocked(c)
 	}
 	delete(i.nicks, NickToLower(s.Nick))
+	if s.Server {
+		// A services link which is gone must no longer be addressed by
+		// sendServices.
+		remaining := make([]uint64, 0, len(i.serverSessions))
+		for _, id := range i.serverSessions {
+			if id != s.Id.Id {
+				remaining = append(remaining, id)
+			}
+		}
+		i.serverSessions = remaining
+	}
 	// Instead of deleting the session here, we defer that to SendMessages, as
 	// SendMessages calls the Interesting function of each reply (such as a
 	// QUIT reply) and that function might still need access to the session to
